@@ -667,13 +667,137 @@ def upd_pg(R: B6, W: B6, L: LT, N: NT, C: CT) -> bool:
     return _core(R, W, L, N, C, provider='postgres')
 
 
+# ---------------------------------------------------------------------------------------------- two commits
+def upd_twice(R: B3, W1: B2, W2: B2, r2_a: bool, L: LT, N: NT, C: CT) -> bool:
+    """
+    pre: _pre((False,) * 6, None, L, N, C, True) and L[3] and not L[5] and not N[3] and not N[5]
+    pre: (W1[0] or W1[1]) and (W2[0] or W2[1])
+    post: _
+    """
+    # One session, the same object updated twice with a commit() in between (the first UPDATE finds its row unchanged), then
+    # an arbitrary current row at the second UPDATE.  R: a, n, g read before the first commit; W1: a, x assigned before it;
+    # W2: x, g assigned after it; r2_a: a is read again between the commits.
+    # Asserted on the SECOND UPDATE: a term with the value read for every attribute in R that the session never overwrote
+    # (reads are not forgotten by a save), S4 (matched => those unchanged; row as the session left it => matched), S5.
+    from pony.orm import db_session, commit
+    from pony.orm.core import OptimisticCheckError, UnrepeatableReadError
+    e = ENVS['sqlite']
+    _reset(e)
+    E, G, con, col = e.E, e.G, e.con, e.col
+    la, lx, lv, ln_null, ln, lg_null = L
+    na, nx, nv, nn_null, nn, ng_null = N
+    exists, ca, cx, cv, cn_null, cn, cg_null, cg = C
+    loaded = {'id': 1, 'a': la, 'f': 1.5, 'x': lx, 'v': lv, 'n': None, 'g': LOADED_G}
+    cur = {'id': (False, 1), 'a': (False, ca), 'x': (False, cx), 'v': (False, cv), 'n': (cn_null, cn), 'g': (cg_null, cg)}
+    st = {'updates': [], 'matched': None}
+    why = []
+
+    def responder(sql, args):
+        table, cols = select_columns(sql)
+        if table == E._table_:
+            if st['updates']: return [], [(c,) for c in cols], -1          # find_updated_attributes (message only)
+            return [tuple(loaded[c] for c in cols)], [(c,) for c in cols], -1
+        if table == G._table_: return [(args[0],)], [('id',)], -1
+        if sql.startswith('UPDATE'):
+            try: tab, sets, terms = bind(sql, args)
+            except Unparsed as ex:
+                why.append('unparsed UPDATE: %s' % ex)
+                st['updates'].append(None)
+                return [], [], 0
+            st['updates'].append((tab, sets, terms))
+            if len(st['updates']) == 1: return [], [], 1                    # first UPDATE: nobody interfered yet
+            m = exists
+            for t in terms:
+                cnull, cval = cur[t[1]]
+                if t[0] == 'IS_NULL': m = m & cnull
+                elif t[2] is None: m = False
+                else: m = m & ((cnull == False) & (cval == t[2]))
+            matched = True if m else False
+            st['matched'] = matched
+            return [], [], (1 if matched else 0)
+        return None
+    con.reset(responder)
+    exc = None
+    done = False
+    try:
+        with db_session:
+            g_new = G[NEW_G]
+            obj = E.get(id=1)
+            if R[0]: obj.a
+            if R[1]: obj.n
+            if R[2]: obj.g
+            if W1[0]: obj.a = na
+            if W1[1]: obj.x = nx
+            commit()
+            if r2_a: obj.a
+            if W2[0]: obj.x = nv
+            if W2[1]: obj.g = g_new
+            done = True
+    except Exception as ex:
+        exc = ex
+    LAST.update(exc=exc, log=list(con.log), st=st)
+    if not done or len(st['updates']) != 2 or None in st['updates']:
+        why.append('expected two well-formed UPDATEs, got %d; %s' % (len(st['updates']), _exc(exc)))
+        LAST['why'] = why
+        return ok(False)
+    tab, sets, terms = st['updates'][1]
+    matched = st['matched']
+    # what the session knows about the row when it sends the second UPDATE
+    known = dict(loaded)
+    if W1[0]: known['a'] = na
+    if W1[1]: known['x'] = nx
+    want_set = {}
+    if W2[0]: want_set[col['x']] = nv
+    if W2[1]: want_set[col['g']] = NEW_G
+    if sorted(c for c, _ in sets) != sorted(want_set): why.append('SET columns of the second UPDATE')
+    else:
+        for c, v in sets:
+            if not _same(v, want_set[c]): why.append('SET value of %s in the second UPDATE' % c)
+    if not terms or terms[0] != ('EQ', 'id', 1): why.append('first WHERE term is not the primary key')
+    crit = terms[1:]
+    required = []
+    if R[0] and not W1[0]: required.append('a')
+    if R[1]: required.append('n')
+    if R[2] and not W2[1]: required.append('g')
+    if r2_a and 'a' not in required: required.append('a')                   # re-read after the first commit: the value it wrote / loaded
+    for n in required:
+        ts = [t for t in crit if t[1] == col[n]]
+        if not ts: why.append('second UPDATE: no optimistic term for %s (read before the first commit, never overwritten)' % n)
+        for t in ts:
+            if known[n] is None:
+                if t[0] != 'IS_NULL': why.append('%s was read as NULL but is compared with =' % n)
+            elif t[0] != 'EQ' or t[2] is None or not _same(t[2], known[n]): why.append('%s is not compared with the value read' % n)
+    if matched:
+        good = True
+        for n in required:
+            cnull, cval = cur[n]
+            if known[n] is None: good = good & cnull
+            else: good = good & ((cnull == False) & (cval == known[n]))
+        if not good: why.append('second UPDATE matched although a read attribute among %r changed (lost update)' % (required,))
+        if exc is not None: why.append('update applied but the session raised %s' % _exc(exc))
+        if con.commits != 2: why.append('commit() called %d times' % con.commits)
+    else:
+        same = exists
+        for n in ('a', 'x', 'v', 'n', 'g'):
+            cnull, cval = cur[n]
+            if known[n] is None: same = same & cnull
+            else: same = same & ((cnull == False) & (cval == known[n]))
+        if same: why.append('row as the session left it did not match')
+        if not isinstance(exc, (OptimisticCheckError, UnrepeatableReadError)): why.append('no row updated but the session raised %s' % _exc(exc))
+        if con.commits != 1: why.append('commit() called %d times after a failed second check' % con.commits)
+    LAST['why'] = why
+    return ok(not why)
+
+
 # ---------------------------------------------------------------------------------------------- K3: tracking step
 def track_step(i: int, kind: int, r_i: bool, w_i: bool, rest_r: bool, rest_w: bool, val: int) -> bool:
     """
-    pre: 0 <= i < 6 and 0 <= kind < 3
+    pre: 0 <= i < 6 and 0 <= kind < 4
+    pre: kind < 3 or i == 0
     pre: -2 ** 31 <= val < 2 ** 31
     post: _
     """
+    # kind 3 = the object is saved (flush() -> Entity._save_updated_); it does not depend on the attribute index
     # masks before the step: the bits of attribute i are (r_i, w_i); the bits of all other attributes are all clear or all
     # set (rest_r / rest_w), so a step that set or cleared a foreign bit would show.  (One symbolic int per mask is not
     # usable: `int | int` on a symbolic int goes through z3 int2bv and does not terminate.)
@@ -681,7 +805,7 @@ def track_step(i: int, kind: int, r_i: bool, w_i: bool, rest_r: bool, rest_w: bo
     _n = ATTRS[i]
     rbits0 = (_e.nvbit[_n] if r_i else 0) | (sum(_e.nvbit[m] for m in ATTRS if m != _n) if rest_r else 0)
     wbits0 = (_e.bit[_n] if w_i else 0) | (sum(_e.bit[m] for m in ATTRS if m != _n) if rest_w else 0)
-    from pony.orm import db_session, rollback
+    from pony.orm import db_session, rollback, flush
     e = ENVS['sqlite']
     _reset(e)
     E, G, con = e.E, e.G, e.con
@@ -716,13 +840,20 @@ def track_step(i: int, kind: int, r_i: bool, w_i: bool, rest_r: bool, rest_w: bo
             elif kind == 1:
                 attr.__set__(obj, g_new if name == 'g' else float(val) if name == 'f' else val)
                 exp_r, exp_w = rbits0, wbits0 | bit
-            else:
+            elif kind == 2:
                 E._set_rbits([obj], [attr])          # what _fetch_objects does for the attributes a query used
                 exp_r = rbits0 if written else rbits0 | nvbit
                 exp_w = wbits0
+            else:
+                # the save step: what was read stays read, what was written (and is not volatile) counts as read from now on
+                # (the database now holds the session's value), nothing is pending any more
+                flush()
+                exp_r = rbits0 | (wbits0 & ~e.bit['v'])
+                exp_w = 0
+                if obj._status_ != ('updated' if wbits0 else 'loaded'): why.append('status after save')
             if obj._rbits_ != exp_r: why.append('rbits')
             if obj._wbits_ != exp_w: why.append('wbits')
-            if obj._rbits_ & 8: why.append('volatile attribute marked as read')
+            if obj._rbits_ & e.bit['v']: why.append('volatile attribute marked as read')
             if (obj._status_ == 'modified') != (exp_w != 0): why.append('status')
             if cache.objects_to_save.count(obj) != (1 if exp_w != 0 else 0): why.append('objects_to_save')
         finally:
@@ -732,7 +863,7 @@ def track_step(i: int, kind: int, r_i: bool, w_i: bool, rest_r: bool, rest_w: bo
 
 
 MAIN = ['upd_w%02d' % k for k in range(16)]
-HARNESSES = MAIN + ['upd_nulls', 'upd_volatile', 'upd_float', 'upd_for_update', 'upd_pessimistic', 'upd_pg', 'track_step']
+HARNESSES = MAIN + ['upd_nulls', 'upd_volatile', 'upd_float', 'upd_for_update', 'upd_pessimistic', 'upd_pg', 'upd_twice', 'track_step']
 
 
 def explain(fn, **kw):
